@@ -21,10 +21,24 @@ class InjectedError(Exception):
 
 
 def run_async_case(case, watchdog_s=30.0):
-  """Returns (finished, log). case: P, lens, C, cap, consumers kind, fault."""
+  """Returns (finished, log). case: P, lens, C, cap, consumers kind, fault.
+
+  Scenario cases (case['scn']):
+    'cancel'   - case['cancel'] = {'p', 'at', 'where'}: the task of producer p is cancelled
+                 when its source reaches element `at`, either while the source is awaited
+                 ('anext') or while the element is being put ('put').
+    'numsteps' - consumers 'aiter_n' (async_dequeue_as_iterator(num_steps=k)) / 'iter_n'
+                 (the sync twin dequeue_as_iterator(num_steps=k)), k = case['num_steps'][c];
+                 producers are asyncio tasks or (case['prod_kind'] == 'thread') threads
+                 running enqueue_from_iterator; sources are practically endless.
+  For these the log ends with a ('final', {...}) snapshot of the queue / task state.
+  """
   from ml_metrics._src.utils import iter_utils
   P, lens, C, cap = case['P'], case['lens'], case['C'], case['cap']
   fault = case.get('fault')
+  scn = case.get('scn')
+  cancel = case.get('cancel')
+  thread_producers = case.get('prod_kind') == 'thread'
   rng = random.Random(case.get('delay_seed', 0))
   delays = [rng.choice([0, 0, 0.0005, 0.002]) for _ in range(64)]
   log = []
@@ -48,6 +62,19 @@ def run_async_case(case, watchdog_s=30.0):
       if fault and fault['p'] == p and fault['at'] == i:
         rec('fail', p, i)
         raise InjectedError(f'p{p}@{i}')
+      if cancel and cancel['p'] == p and cancel['at'] == i:
+        # The enqueue task is cancelled from outside (a dropped worker, a wait_for
+        # around it, a TaskGroup sibling failing...). call_soon: the cancellation is
+        # delivered at the task's next suspension point.
+        rec('cancel', p, i, cancel['where'])
+        asyncio.get_running_loop().call_soon(tasks[p].cancel)
+        if cancel['where'] == 'anext':
+          await asyncio.sleep(3600)
+        # 'put': no suspension before the element is handed over, so the cancellation
+        # arrives while the task awaits async_put(element).
+        rec('produce', p, i)
+        yield (p, i)
+        continue
       d = delays[(p * 7 + i) % len(delays)] if i < 40 else 0
       if d:
         await asyncio.sleep(d)
@@ -65,6 +92,37 @@ def run_async_case(case, watchdog_s=30.0):
       rec('prod_return', p)
     except BaseException as e:  # pylint: disable=broad-exception-caught
       rec('prod_raise', p, type(e).__name__)
+
+  def sgen(p):
+    for i in range(lens[p]):
+      d = delays[(p * 7 + i) % len(delays)] if i < 40 else 0
+      if d:
+        time.sleep(d)
+      rec('produce', p, i)
+      yield (p, i)
+
+  def tproducer(p):
+    try:
+      q.enqueue_from_iterator(sgen(p))
+      rec('prod_return', p)
+    except BaseException as e:  # pylint: disable=broad-exception-caught
+      rec('prod_raise', p, type(e).__name__)
+
+  async def aconsumer_n(c, k):
+    try:
+      async for v in q.async_dequeue_as_iterator(num_steps=k):
+        rec('recv', c, v[0], v[1])
+      rec('end', c, 'stop', ())
+    except BaseException as e:  # pylint: disable=broad-exception-caught
+      rec('end', c, 'exc', type(e).__name__)
+
+  def sconsumer_n(c, k):
+    try:
+      for v in q.dequeue_as_iterator(num_steps=k):
+        rec('recv', c, v[0], v[1])
+      rec('end', c, 'stop', ())
+    except BaseException as e:  # pylint: disable=broad-exception-caught
+      rec('end', c, 'exc', type(e).__name__)
 
   async def aconsumer(c):
     try:
@@ -96,16 +154,33 @@ def run_async_case(case, watchdog_s=30.0):
   lt.start()
   futs = []
   threads = []
+  tasks = []
+  finished = False
   try:
     async def start_producers():
-      return [asyncio.ensure_future(producer(p)) for p in range(P)]
+      if thread_producers:
+        return
+      tasks.extend(asyncio.ensure_future(producer(p)) for p in range(P))
 
-    tasks = asyncio.run_coroutine_threadsafe(start_producers(), loop).result(10)
+    asyncio.run_coroutine_threadsafe(start_producers(), loop).result(10)
+    if thread_producers:
+      for p in range(P):
+        t = threading.Thread(target=tproducer, args=(p,), daemon=True, name=f'aq-p{p}')
+        t.start()
+        threads.append(t)
     modes = case['modes']
     for c in range(C):
       m = modes[c % len(modes)]
       if m == 'async':
         futs.append(asyncio.run_coroutine_threadsafe(aconsumer(c), loop))
+      elif m == 'aiter_n':
+        futs.append(asyncio.run_coroutine_threadsafe(
+            aconsumer_n(c, case['num_steps'][c]), loop))
+      elif m == 'iter_n':
+        t = threading.Thread(target=sconsumer_n, args=(c, case['num_steps'][c]),
+                             daemon=True, name=f'aq-c{c}')
+        t.start()
+        threads.append(t)
       else:
         t = threading.Thread(target=sconsumer, args=(c, m), daemon=True, name=f'aq-c{c}')
         t.start()
@@ -120,20 +195,154 @@ def run_async_case(case, watchdog_s=30.0):
       t.join(max(0.1, deadline - time.time()))
 
     async def wait_tasks():
-      await asyncio.wait(tasks, timeout=max(0.1, deadline - time.time()))
+      if tasks:
+        await asyncio.wait(tasks, timeout=max(0.1, deadline - time.time()))
       return [t.done() for t in tasks]
 
     done = asyncio.run_coroutine_threadsafe(wait_tasks(), loop).result(watchdog_s + 5)
     finished = (all(done) and all(f.done() for f in futs)
                 and not any(t.is_alive() for t in threads))
+    if scn:
+      rec('final', {
+          'enqueue_done': bool(q.enqueue_done),
+          'exception': type(q.exception).__name__ if q.exception is not None else None,
+          'exhausted': bool(q.exhausted),
+          'producer_tasks_done': list(done),
+          'consumer_coroutines_done': [f.done() for f in futs],
+          'threads_alive': [t.name for t in threads if t.is_alive()],
+      })
   finally:
+    if scn and not finished:
+      # The verdict is taken; release whatever is still parked in the queue.
+      try:
+        q.maybe_stop()
+      except Exception:  # pylint: disable=broad-exception-caught
+        pass
     loop.call_soon_threadsafe(loop.stop)
     pool.shutdown(wait=False, cancel_futures=True)
   with lock:
     return finished, list(log)
 
 
+MECH_CANCELLED_ENQUEUER = 'cancelled-async-enqueuer-never-unregistered'
+MECH_ASYNC_NUM_STEPS = 'async-num-steps-does-not-stop-queue'
+
+
+def _final(log):
+  for e in reversed(log):
+    if e[0] == 'final':
+      return e[1]
+  return {}
+
+
+def classify_hang(case, log):
+  """Key of a case that did not complete within the watchdog twice (by scenario + state)."""
+  scn = case.get('scn')
+  fin = _final(log)
+  ends = {e[1]: e for e in log if e[0] == 'end'}
+  prod = {e[1]: e for e in log if e[0] in ('prod_return', 'prod_raise')}
+  if scn == 'cancel':
+    p = case['cancel']['p']
+    # The cancelled task is gone, every other producer returned, nothing was recorded
+    # on the queue and it still counts a running enqueuer: nobody is left to wake the
+    # consumers.
+    if (prod.get(p, (None, None, None))[0] == 'prod_raise' and prod[p][2] == 'CancelledError'
+        and all(prod.get(o, (None,))[0] == 'prod_return' for o in range(case['P']) if o != p)
+        and fin.get('enqueue_done') is False and fin.get('exception') is None):
+      return MECH_CANCELLED_ENQUEUER
+  if scn == 'numsteps':
+    # Every consumer ended, an async num_steps consumer took all its elements, no sync
+    # num_steps consumer got as far as stopping the queue, and the queue was never stopped.
+    n_recv = {c: sum(1 for e in log if e[0] == 'recv' and e[1] == c) for c in range(case['C'])}
+    modes, ks = case['modes'], case['num_steps']
+    full = [c for c in range(case['C']) if c in ends and n_recv[c] == ks[c]]
+    if (len(ends) == case['C'] and fin.get('enqueue_done') is False
+        and any(modes[c] == 'aiter_n' for c in full)
+        and not any(modes[c] == 'iter_n' for c in full)):
+      return MECH_ASYNC_NUM_STEPS
+  return f'{scn}:async-queue-hang' if scn else 'async-queue-hang'
+
+
+def _stream_checks(log, out):
+  produced = {(e[1], e[2]) for e in log if e[0] == 'produce'}
+  recv = [(e[1], e[2], e[3]) for e in log if e[0] == 'recv']
+  ids = [(p, i) for (_, p, i) in recv]
+  if len(set(ids)) != len(ids):
+    out.append(('duplicate', sorted({x for x in ids if ids.count(x) > 1})[:5]))
+  if not set(ids) <= produced:
+    out.append(('phantom', sorted(set(ids) - produced)[:5]))
+  last = {}
+  for (c, p, i) in recv:
+    if last.get((c, p), -1) >= i:
+      out.append(('order', {'consumer': c, 'producer': p, 'got': i}))
+      break
+    last[(c, p)] = i
+  return produced, set(ids)
+
+
+def analyse_cancel(case, log):
+  """A cancelled enqueue task: everybody ends; a clean end loses nothing of the others."""
+  P, C, lens = case['P'], case['C'], case['lens']
+  cp, at = case['cancel']['p'], case['cancel']['at']
+  out = []
+  _, got = _stream_checks(log, out)
+  ends = {e[1]: e for e in log if e[0] == 'end'}
+  for c in range(C):
+    if c not in ends:
+      out.append(('consumer_no_end', c))
+  for p in range(P):
+    e = [x for x in log if x[0] in ('prod_return', 'prod_raise') and x[1] == p]
+    if not e:
+      out.append(('producer_no_return', p))
+    elif p != cp and e[0][0] != 'prod_return' and all(x[2] == 'stop' for x in ends.values()):
+      out.append(('other_producer_raised', e[0][1:]))
+  if ends and all(e[2] == 'stop' for e in ends.values()) and len(ends) == C:
+    # Nobody was told about an error: only the cancelled producer's tail may be missing
+    # (the element in flight at the cancellation may or may not have been put).
+    want = {(p, i) for p in range(P) for i in range(lens[p]) if p != cp or i < at}
+    if not want <= got:
+      out.append(('lost', sorted(want - got)[:5]))
+  fin = _final(log)
+  if fin and not fin.get('enqueue_done'):
+    out.append(('enqueue_not_done_at_end', fin))
+  return out
+
+
+def analyse_numsteps(case, log):
+  """Early stop by num_steps: consumers get at most k in order, the queue is stopped."""
+  P, C = case['P'], case['C']
+  out = []
+  _stream_checks(log, out)
+  ends = {e[1]: e for e in log if e[0] == 'end'}
+  n_recv = {c: sum(1 for e in log if e[0] == 'recv' and e[1] == c) for c in range(C)}
+  for c in range(C):
+    e = ends.get(c)
+    if e is None:
+      out.append(('consumer_no_end', c))
+    elif e[2] != 'stop':
+      out.append(('consumer_bad_end', e[1:]))
+    if n_recv[c] > case['num_steps'][c]:
+      out.append(('more_than_num_steps', {'consumer': c, 'got': n_recv[c]}))
+  if not any(n_recv[c] == case['num_steps'][c] for c in range(C)):
+    # The sources are practically endless: somebody must get all the steps asked for.
+    out.append(('early_end', n_recv))
+  for p in range(P):
+    e = [x for x in log if x[0] in ('prod_return', 'prod_raise') and x[1] == p]
+    if not e:
+      out.append(('producer_no_return', p))
+    elif e[0][0] != 'prod_return':
+      out.append(('producer_raised_on_stop', e[0][1:]))
+  fin = _final(log)
+  if fin and not fin.get('enqueue_done'):
+    out.append(('enqueue_not_done_at_end', fin))
+  return out
+
+
 def analyse(case, log):
+  if case.get('scn') == 'cancel':
+    return analyse_cancel(case, log)
+  if case.get('scn') == 'numsteps':
+    return analyse_numsteps(case, log)
   P, C, lens = case['P'], case['C'], case['lens']
   fault = case.get('fault')
   out = []
